@@ -208,7 +208,7 @@ pub fn property() -> Property {
     add::<SMin>(&mut jobs, "ops+merges", Disc::Any, mixed(), false, &[], 4000, 40_000, 0.02);
     add::<SMerkle>(&mut jobs, "ops+merges", Disc::Any, mixed(), false, &[], 6000, 60_000, 0.02);
     add::<SVClock>(&mut jobs, "ops+merges", Disc::Any, mixed(), false, &[], 4000, 40_000, 0.02);
-    jobs.push(job("Orswot/remove storm (structured: many pending removes at once)", 30000, 300_000, storm_strategy, |c: &Storm, st: &mut Stats| check_storm(c, st)).floor("nontrivial", 0.3).boxed());
+    jobs.push(job("Orswot/remove storm (structured: many pending removes at once)", 12000, 200_000, storm_strategy, |c: &Storm, st: &mut Stats| check_storm(c, st)).floor("nontrivial", 0.3).boxed());
     // plain regression scenario for the repaired defect MAP-T3b (bypasses the generators): two nested removes overtake
     // the adds they observed and are parked; a partial key remove then subtracts its dots from both parked clocks,
     // which become equal; before the fix one pending remove replaced the other and a removed member resurrected
